@@ -1,7 +1,9 @@
 /-
-C24, assembly: `_count_mutations` through the sweep rule (pieces in Proofs/CountMut.lean).
+C24, assembly: `_count_mutations` (plain and size-biased) through the sweep rule.  Pieces in
+Proofs/CountMut.lean (edge bookkeeping, mutation loop) and Proofs/CountMutSB.lean (sample counts).
 -/
-import TsdateVerif.Proofs.CountMut
+import Mathlib.Algebra.BigOperators.Group.List.Basic
+import TsdateVerif.Proofs.CountMutSB
 
 namespace Tsdate.CountMut
 open Tsdate Tsdate.Sweep
@@ -11,18 +13,23 @@ set_option linter.unusedVariables false
 section
 variable {α : Type} [Inhabited α] [Field α] [LinearOrder α] [IsStrictOrderedRing α]
 
-/-- The loop invariant of `_count_mutations` (both variants; the `plain` part only without size
-biasing). -/
-structure CInv (T : Tables α) (M : Muts α) (N : Nat) (sb : Bool) (order : List Nat) (x : α)
+/-- The weight with which a mutation is counted: `1`, or in the size-biased variant the number of
+`mask` nodes at or below its node in the local tree at its position. -/
+def wt (T : Tables α) (M : Muts α) (mask : Array Bool) (sb : Bool) (m : Nat) : α :=
+  if sb then (samplesBelow T mask (aget M.pos m) (aget M.node m) : α) else 1
+
+/-- The loop invariant of `_count_mutations`. -/
+structure CInv (T : Tables α) (M : Muts α) (mask : Array Bool) (sb : Bool) (order : List Nat) (x : α)
     (insD remD : List Nat) (s : St α) : Prop where
-  szNE : s.nodeEdge.size = N
+  szNE : s.nodeEdge.size = mask.size
   szSP : s.edgeSpan.size = T.numEdges
-  ne : NE T N insD remD s.nodeEdge
+  ne : NE T mask.size insD remD s.nodeEdge
   muts : ∃ mutD, order = mutD ++ s.mutR ∧ (∀ m ∈ mutD, aget M.pos m < x) ∧
-    (∀ m ∈ s.mutR, x ≤ aget M.pos m) ∧ MutsOk T M sb mutD s.mutR s
+    (∀ m ∈ s.mutR, x ≤ aget M.pos m) ∧ MutsOk T M (wt T M mask sb) mutD s.mutR s
   plain : sb = false → (∀ e, e < T.numEdges → aget s.edgeSpan e =
       (if e ∈ insD then T.seqLen - T.l e else 0) - (if e ∈ remD then T.seqLen - T.r e else 0)) ∧
     s.err = false
+  sized : sb = true → SBInv T mask mask.size s
 
 /-- What the caller of the kernel guarantees about the mutation table and the visiting order. -/
 structure MutsValid (M : Muts α) (N : Nat) (order : List Nat) : Prop where
@@ -32,17 +39,34 @@ structure MutsValid (M : Muts α) (N : Nat) (order : List Nat) : Prop where
   pos : ∀ m, m < M.node.size → (0 : α) ≤ aget M.pos m
 
 /-- The result of `_count_mutations` that C24 is about. -/
-def CountSpec (T : Tables α) (M : Muts α) (sb : Bool) (s : St α) : Prop :=
+def CountSpec (T : Tables α) (M : Muts α) (mask : Array Bool) (sb : Bool) (s : St α) : Prop :=
+  s.err = false ∧
   (∀ m, m < M.node.size → ∀ e, aget s.mutEdge m = some e ↔ Above T M m e) ∧
-  (sb = false → s.err = false ∧ ∀ e, e < T.numEdges →
-    aget s.edgeMuts e = (((List.range M.node.size).countP fun m => decide (Above T M m e) : Nat) : α) ∧
-    aget s.edgeSpan e = T.r e - T.l e)
+  (∀ e, e < T.numEdges → aget s.edgeMuts e =
+    ((List.range M.node.size).map fun m => if Above T M m e then wt T M mask sb m else 0).sum) ∧
+  (sb = false → ∀ e, e < T.numEdges → aget s.edgeSpan e = T.r e - T.l e)
 
-theorem mutLoop_ok (T : Tables α) (M : Muts α) (N : Nat) (sb : Bool) (order : List Nat)
-    (hV : Valid T) (hM : MutsValid M N order)
+/-- static facts about the tables used throughout -/
+structure Static (T : Tables α) (N : Nat) (sb : Bool) (time : Nat → α) : Prop where
+  valid : Valid T
+  noOverlap : NoOverlap T
+  chi : ∀ e, e < T.numEdges → T.chi e < N
+  par : ∀ e, e < T.numEdges → T.par e < N
+  older : sb = true → ∀ e, e < T.numEdges → time (T.chi e) < time (T.par e)
+
+theorem SBInv.congr {T : Tables α} {mask : Array Bool} {N : Nat} {s s' : St α}
+    (h : SBInv T mask N s) (h1 : s'.nodeSamples = s.nodeSamples) (h2 : s'.nodeParent = s.nodeParent)
+    (h3 : s'.nodeEdge = s.nodeEdge) (h4 : s'.err = s.err) : SBInv T mask N s' := by
+  have hp : parOf s' = parOf s := by funext c; simp only [parOf, h2]
+  exact ⟨by rw [h1]; exact h.szNS, by rw [h2]; exact h.szNP, by rw [h2, h3]; exact h.np,
+    by rw [h1, hp]; exact h.ns, by rw [h4]; exact h.err⟩
+
+theorem mutLoop_ok (T : Tables α) (M : Muts α) (mask : Array Bool) (sb : Bool) (order : List Nat)
+    (time : Nat → α) (hS : Static T mask.size sb time) (hM : MutsValid M mask.size order)
     {x x' : α} {insD insR remD remR : List Nat} (F : AdvFacts T x x' insD insR remD remR)
-    (s : St α) (h : CInv T M N sb order x insD remD s) :
-    CInv T M N sb order x' insD remD (mutLoop M sb x' s) := by
+    (s : St α) (h : CInv T M mask sb order x insD remD s) :
+    CInv T M mask sb order x' insD remD (mutLoop M sb x' s) := by
+  have hV := hS.valid
   obtain ⟨mutD, hord, hD, hR, hok⟩ := h.muts
   set p : Nat → Bool := fun m => decide (aget M.pos m < x') with hp
   set tk := s.mutR.takeWhile p with htk
@@ -54,20 +78,42 @@ theorem mutLoop_ok (T : Tables α) (M : Muts α) (N : Nat) (sb : Bool) (order : 
   obtain ⟨htk_lt, hdp_ge⟩ := split_sorted_lt (fun m => aget M.pos m) x' s.mutR hRs
   have hmemM : ∀ m ∈ order, m < M.node.size := fun m hm =>
     List.mem_range.mp (hM.perm.mem_iff.mp hm)
+  have hI : ∀ e ∈ insD, e < T.numEdges := fun e he =>
+    hV.mem_ins.mp (by rw [F.hins]; exact List.mem_append_left _ he)
+  -- the weight the kernel adds for a mutation in [x, x') is the specified one
+  have hweight : ∀ m, m < M.node.size → x ≤ aget M.pos m → aget M.pos m < x' →
+      (if sb then aget s.nodeSamples (aget M.node m) else 1) = wt T M mask sb m := by
+    intro m hm h1 h2
+    unfold wt
+    cases hsb : sb with
+    | false => simp
+    | true =>
+      simp only [if_true]
+      have hsbI := h.sized hsb
+      obtain ⟨ho, hQN⟩ := older_of T mask.size time (hS.older hsb) hS.par insD remD hI s h.szNE h.ne
+        hsbI.np
+      have hpar := parentAt_eq_parOf T hV hS.noOverlap mask.size hS.chi F s h.szNE h.ne hsbI.np
+        (aget M.pos m) h1 h2
+      rw [hsbI.ns _ (hM.node m hm), samplesBelow_eq T mask time (aget M.pos m) (hpar ▸ ho)
+        (hpar ▸ hQN), hpar]
   -- the fold over the mutations in [x, x')
-  have hfold : (∀ rest, tk = tk ++ rest → MutsOk T M sb (mutD ++ tk) (rest ++ dp) (tk.foldl (mutStep M sb) s)) ∧
+  have hfold : (∀ rest, tk = tk ++ rest →
+        MutsOk T M (wt T M mask sb) (mutD ++ tk) (rest ++ dp) (tk.foldl (mutStep M sb) s)) ∧
       (tk.foldl (mutStep M sb) s).nodeEdge = s.nodeEdge ∧
       (tk.foldl (mutStep M sb) s).edgeSpan = s.edgeSpan ∧
-      (tk.foldl (mutStep M sb) s).err = s.err := by
+      (tk.foldl (mutStep M sb) s).err = s.err ∧
+      (tk.foldl (mutStep M sb) s).nodeSamples = s.nodeSamples ∧
+      (tk.foldl (mutStep M sb) s).nodeParent = s.nodeParent := by
     apply foldl_prefix_inv (mutStep M sb)
-      (fun d s' => (∀ rest, tk = d ++ rest → MutsOk T M sb (mutD ++ d) (rest ++ dp) s') ∧
-        s'.nodeEdge = s.nodeEdge ∧ s'.edgeSpan = s.edgeSpan ∧ s'.err = s.err) tk s
-    · refine ⟨?_, rfl, rfl, rfl⟩
+      (fun d s' => (∀ rest, tk = d ++ rest → MutsOk T M (wt T M mask sb) (mutD ++ d) (rest ++ dp) s') ∧
+        s'.nodeEdge = s.nodeEdge ∧ s'.edgeSpan = s.edgeSpan ∧ s'.err = s.err ∧
+        s'.nodeSamples = s.nodeSamples ∧ s'.nodeParent = s.nodeParent) tk s
+    · refine ⟨?_, rfl, rfl, rfl, rfl, rfl⟩
       intro rest hrest
       simp only [List.nil_append] at hrest
       rw [List.append_nil, ← hrest, ← hsplit]
       exact hok
-    · intro d m r s' hd ⟨hP, hne', hsp', herr'⟩
+    · intro d m r s' hd ⟨hP, hne', hsp', herr', hns', hnp'⟩
       have hP' := hP (m :: r) hd
       have hmtk : m ∈ tk := by rw [hd]; simp
       have hmR : m ∈ s.mutR := by rw [hsplit]; exact List.mem_append_left _ hmtk
@@ -84,16 +130,17 @@ theorem mutLoop_ok (T : Tables α) (M : Muts α) (N : Nat) (sb : Bool) (order : 
         rw [hne', h.ne (aget M.node m) (hM.node m hmM) e]
         constructor
         · rintro ⟨h1, h2, h3⟩
-          have heE : e < T.numEdges := hV.mem_ins.mp (by rw [F.hins]; exact List.mem_append_left _ h1)
+          have heE : e < T.numEdges := hI e h1
           have := (F.active_iff hV (aget M.pos m) hx1 hx2 e heE).mp ⟨h1, h2⟩
           exact ⟨heE, h3, this.1, this.2⟩
         · rintro ⟨heE, h3, h4, h5⟩
           have := (F.active_iff hV (aget M.pos m) hx1 hx2 e heE).mpr ⟨h4, h5⟩
           exact ⟨this.1, this.2, h3⟩
-      have hstep := mutStep_ok T M sb (mutD ++ d) m (r ++ dp) s' hmM hnd' hne
-        (by simpa using hP')
-      obtain ⟨hok', h1, h2, h3, _, _⟩ := hstep
-      refine ⟨?_, by rw [h1, hne'], by rw [h2, hsp'], by rw [h3, herr']⟩
+      have hstep := mutStep_ok T M sb (wt T M mask sb) (mutD ++ d) m (r ++ dp) s' hmM hnd' hne
+        (by rw [hns']; exact hweight m hmM hx1 hx2) (by simpa using hP')
+      obtain ⟨hok', h1, h2, h3, h4, h5⟩ := hstep
+      refine ⟨?_, by rw [h1, hne'], by rw [h2, hsp'], by rw [h3, herr'], by rw [h4, hns'],
+        by rw [h5, hnp']⟩
       intro rest hrest
       have : rest = r := by
         have : d ++ m :: r = d ++ m :: rest := by rw [← hd, hrest]; simp
@@ -101,7 +148,7 @@ theorem mutLoop_ok (T : Tables α) (M : Muts α) (N : Nat) (sb : Bool) (order : 
         exact (List.cons.inj this).2.symm
       subst this
       simpa [List.append_assoc] using hok'
-  obtain ⟨hfok, hfne, hfsp, hferr⟩ := hfold
+  obtain ⟨hfok, hfne, hfsp, hferr, hfns, hfnp⟩ := hfold
   have hfok' := hfok [] (by simp)
   simp only [List.nil_append] at hfok'
   -- the state after the loop
@@ -110,7 +157,8 @@ theorem mutLoop_ok (T : Tables α) (M : Muts α) (N : Nat) (sb : Bool) (order : 
     simp only [drainWhile_eq]
     rfl
   rw [hml]
-  refine ⟨by simpa [hfne] using h.szNE, by simpa [hfsp] using h.szSP, by simpa [hfne] using h.ne, ?_, ?_⟩
+  refine ⟨by simpa [hfne] using h.szNE, by simpa [hfsp] using h.szSP, by simpa [hfne] using h.ne, ?_, ?_,
+    ?_⟩
   · refine ⟨mutD ++ tk, ?_, ?_, ?_, hfok'.congr rfl rfl⟩
     · simp only; rw [hord, hsplit]; simp
     · intro m hm
@@ -122,22 +170,51 @@ theorem mutLoop_ok (T : Tables α) (M : Muts α) (N : Nat) (sb : Bool) (order : 
     obtain ⟨h1, h2⟩ := h.plain hsb
     simp only [hfsp, hferr]
     exact ⟨h1, h2⟩
+  · intro hsb
+    exact (h.sized hsb).congr hfns hfnp hfne hferr
 
-theorem countWith_correct (T : Tables α) (M : Muts α) (isSample : Array Bool) (sb : Bool)
-    (order : List Nat) (hV : Valid T) (hNO : NoOverlap T)
-    (hN : ∀ e, e < T.numEdges → T.chi e < isSample.size)
-    (hM : MutsValid M isSample.size order) :
-    ∃ s, countWith T M isSample sb order = some s ∧ CountSpec T M sb s := by
-  set N := isSample.size with hNdef
+open Classical in
+/-- in a forest without edges every node is alone in its tree -/
+theorem cntBelow_empty (mark : Nat → Bool) (n u : Nat) (hu : u < n) :
+    cntBelow (fun _ => none) mark n u = if mark u then 1 else 0 := by
+  unfold cntBelow
+  have h1 : (List.range n).countP (fun v => mark v && decide (Below (fun _ => none) u v)) =
+      (List.range n).countP (fun v => mark u && decide (v = u)) := by
+    apply List.countP_congr
+    intro v _
+    have : Below (fun _ => none) u v ↔ v = u :=
+      ⟨fun h => (Below.of_root rfl h).symm, fun h => h ▸ Below.refl⟩
+    by_cases hvu : v = u
+    · subst hvu; simp [this]
+    · simp [this, hvu]
+  rw [h1]
+  by_cases hm : mark u = true
+  · simp only [hm, Bool.true_and, if_true]
+    have := List.count_range (a := u) (n := n)
+    simp only [hu, if_true] at this
+    rw [← this, List.count_eq_countP]
+    apply List.countP_congr
+    intro v _; simp
+  · simp [hm]
+
+theorem countWith_correct (T : Tables α) (M : Muts α) (mask : Array Bool) (sb : Bool)
+    (order : List Nat) (time : Nat → α) (hS : Static T mask.size sb time)
+    (hM : MutsValid M mask.size order) :
+    ∃ s, countWith T M mask sb order = some s ∧ CountSpec T M mask sb s := by
+  have hV := hS.valid
+  have hNO := hS.noOverlap
+  have hN := hS.chi
+  set N := mask.size with hNdef
   have hndI := hV.nodup_ins
   have hndR := hV.nodup_rem
-  have key := sweep_rule T hV (hooks T M sb) (CInv T M N sb order) (CInv T M N sb order)
-    (CountSpec T M sb) (init T.numEdges M isSample order)
+  have key := sweep_rule T hV (hooks T M sb) (CInv T M mask sb order) (CInv T M mask sb order)
+    (CountSpec T M mask sb) (init T.numEdges M mask order)
   apply key
   · -- init
-    refine ⟨by simp [init, hNdef], by simp [init], ?_, ?_, ?_⟩
+    refine ⟨by simp [init], by simp [init], ?_, ?_, ?_, ?_⟩
     · intro c hc e
-      simp [init, aget, hNdef ▸ hc]
+      have hc' : c < mask.size := hc
+      simp [init, aget, hc']
     · refine ⟨[], by simp [init], by simp, ?_, ?_⟩
       · intro m hm
         exact hM.pos m (List.mem_range.mp (hM.perm.mem_iff.mp hm))
@@ -145,12 +222,27 @@ theorem countWith_correct (T : Tables α) (M : Muts α) (isSample : Array Bool) 
         · intro m hm
           have := List.mem_range.mp (hM.perm.mem_iff.mp hm)
           simp [init, aget, this]
-        · intro _ e he
+        · intro e he
           simp [init, aget, he]
     · intro _
       refine ⟨?_, rfl⟩
       intro e he
       simp [init, aget, he]
+    · intro _
+      have hpar : parOf (init T.numEdges M mask order : St α) = fun _ => none := by
+        funext c
+        simp only [parOf, init, aget]
+        by_cases hc : c < mask.size <;> simp [hc]
+        rfl
+      refine ⟨by simp [init], by simp [init], ?_, ?_, rfl⟩
+      · intro c
+        simp only [init, aget]
+        by_cases hc : c < mask.size <;> simp [hc]
+        rfl
+      · intro u hu
+        rw [hpar, cntBelow_empty _ _ _ hu]
+        simp only [init, aget]
+        simp [hu]
   · -- head
     intro x insD remD s h; exact h
   · -- remove
@@ -161,8 +253,8 @@ theorem countWith_correct (T : Tables α) (M : Muts α) (isSample : Array Bool) 
       have := hndR; rw [F.hrem] at this
       intro hh
       exact (List.nodup_append.mp this).2.2 e hh e (List.mem_cons_self ..) rfl
-    show CInv T M N sb order x insD (remD ++ [e]) (removeEdge T sb x s e)
-    refine ⟨by rw [h1]; simpa using h.szNE, by rw [h5]; exact h.szSP, ?_, ?_, ?_⟩
+    show CInv T M mask sb order x insD (remD ++ [e]) (removeEdge T sb x s e)
+    refine ⟨by rw [h1]; simpa using h.szNE, by rw [h5]; exact h.szSP, ?_, ?_, ?_, ?_⟩
     · rw [h1]; exact ne_remove T hV hNO N hN F s.nodeEdge h.szNE h.ne
     · obtain ⟨mutD, a, b, c, d⟩ := h.muts
       exact ⟨mutD, by rw [h4]; exact a, b, by rw [h4]; exact c, by rw [h4]; exact d.congr h2 h3⟩
@@ -180,6 +272,9 @@ theorem countWith_correct (T : Tables α) (M : Muts α) (isSample : Array Bool) 
         ring
       · simp only [hee, if_false, List.mem_append, List.mem_singleton, or_false]
         exact hs e' he'
+    · intro hsb
+      subst hsb
+      exact removeEdge_sb T hV hNO mask N time (hS.older rfl) hN hS.par F s h.szNE h.ne (h.sized rfl)
   · -- insert
     intro x insD e insR remD remR s F h
     obtain ⟨h1, h2, h3, h4, h5⟩ := insertEdge_shared T sb x s e
@@ -188,8 +283,8 @@ theorem countWith_correct (T : Tables α) (M : Muts α) (isSample : Array Bool) 
       have := hndI; rw [F.hins] at this
       intro hh
       exact (List.nodup_append.mp this).2.2 e hh e (List.mem_cons_self ..) rfl
-    show CInv T M N sb order x (insD ++ [e]) remD (insertEdge T sb x s e)
-    refine ⟨by rw [h1]; simpa using h.szNE, by rw [h5]; exact h.szSP, ?_, ?_, ?_⟩
+    show CInv T M mask sb order x (insD ++ [e]) remD (insertEdge T sb x s e)
+    refine ⟨by rw [h1]; simpa using h.szNE, by rw [h5]; exact h.szSP, ?_, ?_, ?_, ?_⟩
     · rw [h1]; exact ne_insert T hV hNO N hN F s.nodeEdge h.szNE h.ne
     · obtain ⟨mutD, a, b, c, d⟩ := h.muts
       exact ⟨mutD, by rw [h4]; exact a, b, by rw [h4]; exact c, by rw [h4]; exact d.congr h2 h3⟩
@@ -207,19 +302,25 @@ theorem countWith_correct (T : Tables α) (M : Muts α) (isSample : Array Bool) 
         ring
       · simp only [hee, if_false, List.mem_append, List.mem_singleton, or_false]
         exact hs e' he'
+    · intro hsb
+      subst hsb
+      exact insertEdge_sb T hV hNO mask N time (hS.older rfl) hN hS.par F s h.szNE h.ne (h.sized rfl)
   · -- advance
     intro x x' insD insR remD remR s F h
     constructor
     · intro hstop; exact absurd hstop (by simp [hooks])
     · intro _
-      exact mutLoop_ok T M N sb order hV hM F s h
+      exact mutLoop_ok T M mask sb order time hS hM F s h
   · -- exit
     intro x s hall _ h
     obtain ⟨mutD, hord, hD, hR, hok⟩ := h.muts
     have hnoAbove : ∀ m ∈ s.mutR, ∀ e, ¬ Above T M m e := by
       intro m hm e hA
       exact absurd (lt_of_lt_of_le hA.2.2.2 (le_trans (hall e hA.1) (hR m hm))) (lt_irrefl _)
-    refine ⟨?_, ?_⟩
+    refine ⟨?_, ?_, ?_, ?_⟩
+    · cases hsb : sb with
+      | false => exact (h.plain hsb).2
+      | true => exact (h.sized hsb).err
     · intro m hm e
       have : m ∈ order := hM.perm.mem_iff.mpr (List.mem_range.mpr hm)
       rw [hord] at this
@@ -229,21 +330,20 @@ theorem countWith_correct (T : Tables α) (M : Muts α) (isSample : Array Bool) 
         constructor
         · intro hh; exact absurd hh (by simp)
         · intro hh; exact absurd hh (hnoAbove m hm' e)
-    · intro hsb
-      obtain ⟨hs, herr⟩ := h.plain hsb
-      refine ⟨herr, ?_⟩
-      intro e he
-      constructor
-      · rw [hok.count hsb e he]
-        congr 1
-        rw [← hM.perm.countP_eq, hord, List.countP_append]
-        have : s.mutR.countP (fun m => decide (Above T M m e)) = 0 := by
-          rw [List.countP_eq_zero]
-          intro m hm
-          simpa using hnoAbove m hm e
-        rw [this, Nat.add_zero]
-      · rw [hs e he, if_pos (hV.mem_ins.mpr he), if_pos (hV.mem_rem.mpr he)]
-        ring
+    · intro e he
+      rw [hok.count e he]
+      have hperm := (hM.perm.map fun m => if Above T M m e then wt T M mask sb m else 0).sum_eq
+      rw [← hperm, hord, List.map_append, List.sum_append]
+      have : (s.mutR.map fun m => if Above T M m e then wt T M mask sb m else 0).sum = 0 := by
+        apply List.sum_eq_zero
+        intro v hv
+        obtain ⟨m, hm, rfl⟩ := List.mem_map.mp hv
+        simp [hnoAbove m hm e]
+      rw [this, add_zero]
+    · intro hsb e he
+      obtain ⟨hs, _⟩ := h.plain hsb
+      rw [hs e he, if_pos (hV.mem_ins.mpr he), if_pos (hV.mem_rem.mpr he)]
+      ring
 
 end
 
